@@ -66,7 +66,7 @@ pub enum Limit {
 }
 
 impl Limit {
-    fn value(self, len: usize) -> usize {
+    pub fn value(self, len: usize) -> usize {
         match self {
             Limit::Near(d) => (len as i64 + d as i64).max(0) as usize,
             Limit::Near4G(d) => ((1i64 << 32) + d as i64) as usize,
@@ -277,7 +277,7 @@ unsafe impl BufMut for AnyMut {
 }
 
 impl AnyMut {
-    fn into_vec(self) -> Vec<u8> {
+    pub fn into_vec(self) -> Vec<u8> {
         match self {
             AnyMut::Vec(v) => v,
             AnyMut::Limited(l) => l.into_inner(),
@@ -285,7 +285,7 @@ impl AnyMut {
     }
 }
 
-trait IntoVecs {
+pub trait IntoVecs {
     fn into_vecs(self) -> Vec<Vec<u8>>;
 }
 
@@ -304,6 +304,59 @@ macro_rules! into_vecs_tuple {
         }
     };
 }
+/// Turn an array/tuple of `AnyBuf` back into a vector of them.
+pub trait IntoAnyBufs {
+    fn into_any(self) -> Vec<AnyBuf>;
+}
+
+impl<const N: usize> IntoAnyBufs for [AnyBuf; N] {
+    fn into_any(self) -> Vec<AnyBuf> {
+        self.into_iter().collect()
+    }
+}
+
+macro_rules! into_any_tuple {
+    ($($t:ident . $i:tt),+) => {
+        impl IntoAnyBufs for ($($t),+) {
+            fn into_any(self) -> Vec<AnyBuf> {
+                vec![$(self.$i),+]
+            }
+        }
+    };
+}
+type A = AnyBuf;
+into_any_tuple!(A.0, A.1);
+into_any_tuple!(A.0, A.1, A.2);
+into_any_tuple!(A.0, A.1, A.2, A.3);
+into_any_tuple!(A.0, A.1, A.2, A.3, A.4);
+into_any_tuple!(A.0, A.1, A.2, A.3, A.4, A.5);
+into_any_tuple!(A.0, A.1, A.2, A.3, A.4, A.5, A.6);
+into_any_tuple!(A.0, A.1, A.2, A.3, A.4, A.5, A.6, A.7);
+
+/// (heap address, full contents) of a buffer, looking through LimitedBuf.
+pub fn owned_identity(b: AnyBuf) -> (usize, Vec<u8>) {
+    match b {
+        AnyBuf::Limited(l) => owned_identity(*l.into_inner()),
+        other => {
+            let s = Buf::as_slice(&other);
+            (s.as_ptr().addr(), s.to_vec())
+        }
+    }
+}
+
+/// For C10: build a source buffer, returns it with its full (unlimited) contents and address.
+pub fn build_for_c10(spec: &BufSpec, salt: usize) -> (AnyBuf, Vec<u8>, usize) {
+    let (buf, truth) = build(spec, salt);
+    (buf, truth.bytes, truth.base)
+}
+
+/// For C10: build a destination buffer: (buffer, contents, base address, exposed spare capacity).
+pub fn build_mut_for_c10(spec: &MutSpec, salt: usize) -> (AnyMut, (Vec<u8>, usize, usize)) {
+    let (buf, truth) = build_mut(spec, salt);
+    let exposed = truth.exposed();
+    (buf, (truth.content, truth.base, exposed))
+}
+
 type M = AnyMut;
 into_vecs_tuple!(M.0, M.1);
 into_vecs_tuple!(M.0, M.1, M.2);
